@@ -7,6 +7,7 @@ package gortsplib
 
 import (
 	"crypto/tls"
+	"time"
 
 	"github.com/pion/rtcp"
 	"github.com/pion/rtp"
@@ -178,4 +179,35 @@ func (st *ServerStream) VerifStreamROC(mediaIndex int, ssrc uint32) (uint32, boo
 		return 0, false
 	}
 	return sm.srtpOutCtx.roc(ssrc), true
+}
+
+// VerifSessionSRTPKeys returns, per setupped media (keyed by media control), the outgoing and incoming
+// master key+salt and MKI of a server session.
+func (ss *ServerSession) VerifSessionSRTPKeys() map[string][4][]byte {
+	ret := make(map[string][4][]byte)
+	for m, sm := range ss.setuppedMedias {
+		var e [4][]byte
+		if sm.srtpOutCtx != nil {
+			e[0] = sm.srtpOutCtx.key
+			e[1] = sm.srtpOutCtx.mki
+		}
+		if sm.srtpInCtx != nil {
+			e[2] = sm.srtpInCtx.key
+			e[3] = sm.srtpInCtx.mki
+		}
+		ret[m.Control] = e
+	}
+	return ret
+}
+
+// VerifSetReportPeriods shortens the RTCP report periods of a server (call before Start).
+func (s *Server) VerifSetReportPeriods(sender time.Duration, receiver time.Duration) {
+	s.senderReportPeriod = sender
+	s.receiverReportPeriod = receiver
+}
+
+// VerifSetReportPeriods shortens the RTCP report periods of a client (call before Start).
+func (c *Client) VerifSetReportPeriods(sender time.Duration, receiver time.Duration) {
+	c.senderReportPeriod = sender
+	c.receiverReportPeriod = receiver
 }
